@@ -93,9 +93,53 @@ func tripCount(e *flow.Engine, fn *ssa.Function, id string) (int64, bool) {
 		c := e.Eval(iff.Cond, e.Root(fn))
 		c = flow.StripConv(c)
 		if c.Op == flow.OpBin && c.Name == "<" {
+			// a counted loop with constant start, step and bound: for off := K0; off < K1; off += S
+			if it := flow.StripConv(c.Args[0]); it.Op == flow.OpIter {
+				k0, ok0 := flow.ConstInt(it.Args[0])
+				st, ok1 := flow.ConstInt(it.Args[1])
+				k1, ok2 := flow.ConstInt(c.Args[1])
+				if ok0 && ok1 && ok2 && st > 0 && !(k0 == 0 && st == 1) {
+					if k1 <= k0 {
+						return 0, true
+					}
+					return (k1 - k0 + st - 1) / st, true
+				}
+			}
 			it := flow.StripConv(c.Args[0])
 			if it.Op == flow.OpIter && it.Args[0].IsConst("0") && it.Args[1].IsConst("1") {
-				return flow.ConstInt(c.Args[1])
+				if n, ok := flow.ConstInt(c.Args[1]); ok {
+					return n, true
+				}
+				// `for i := range x` behind a dominating check len(x) == K (the validity
+				// predicate fixes the number of elements): K iterations
+				bound := flow.StripConv(c.Args[1])
+				alts := e.GatesAt(fn, e.Root(fn), l.Head)
+				var k int64 = -1
+				for _, a := range alts {
+					found := int64(-1)
+					for _, g := range a.Gates {
+						if g.Pred == nil || g.Loop != "" {
+							continue
+						}
+						p := flow.StripConv(g.Pred)
+						if p.Op != flow.OpBin || p.Name != "==" || len(p.Args) != 2 {
+							continue
+						}
+						for i := 0; i < 2; i++ {
+							if n, ok := flow.ConstInt(p.Args[i]); ok && flow.Eq(flow.StripConv(p.Args[1-i]), bound) {
+								found = n
+							}
+						}
+					}
+					if found < 0 || (k >= 0 && k != found) {
+						return 0, false
+					}
+					k = found
+				}
+				if k >= 0 && len(alts) > 0 {
+					return k, true
+				}
+				return 0, false
 			}
 		}
 	}
